@@ -360,6 +360,19 @@ def naive_ifft2(x):
     return Wi @ x @ Wi
 
 
+class PlannedIFFT2:
+    """an inverse 2-D FFT 'plan' in the style of pyfftw.FFTW / AOFFT: it owns one output buffer, fills it on every call and returns it"""
+    def __init__(self):
+        self.out = None
+
+    def __call__(self, a):
+        a = numpy.asarray(a)
+        if self.out is None or self.out.shape != a.shape:
+            self.out = numpy.empty(a.shape, dtype=complex)
+        self.out[...] = numpy.fft.ifft2(a)
+        return self.out
+
+
 def fft_objects():
     import scipy.fft
     return [("numpy.fft.ifft2", numpy.fft.ifft2), ("scipy.fft.ifft2", scipy.fft.ifft2), ("naive-inverse-DFT", naive_ifft2)]
@@ -407,6 +420,20 @@ def oracle_config(chk, ps, c, nprng, do_sh=True):
         if sf_.shape != s1.shape or not numpy.abs(sf_ - s1).max() <= TOL * lin_scale:
             bad("fft-object:hi", "ft_phase_screen(FFT=%s) differs from the default path (err %.3g)"
                 % (oname, numpy.abs(sf_ - s1).max() if sf_.shape == s1.shape else float("nan")), fft=oname)
+    # a PLANNED inverse-FFT object (pyfftw / AOFFT style): it owns one output buffer and hands it back on every call.  Two screens made
+    # with the same object must be two screens: the first is kept by the caller (not copied) while the second is made
+    plan = PlannedIFFT2()
+    held = hi_screen(ps, c, g1, FFT=plan)[0]
+    held_copy = numpy.array(held, copy=True)
+    other = hi_screen(ps, c, g2, FFT=plan)[0]
+    chk.count("oracle:fft-object:planned")
+    if held.shape != s1.shape or not numpy.abs(held_copy - s1).max() <= TOL * lin_scale:
+        bad("fft-object:hi", "ft_phase_screen(FFT=<planned object with its own output buffer>) differs from the default path (err %.3g)"
+            % (numpy.abs(held_copy - s1).max() if held.shape == s1.shape else float("nan")), fft="planned")
+    elif not numpy.array_equal(held, held_copy) or (other.shape == s2.shape and not numpy.abs(other - s2).max() <= TOL * lin_scale):
+        bad("fft-object:hi:buffer-reuse", "two screens made with ONE planned FFT object (which returns its own output buffer every time): the screen "
+            "kept from the first call changed by %.3g when the second was made — the returned screen is a view of the object's buffer"
+            % float(numpy.abs(held - held_copy).max()), fft="planned")
     z = hi_screen(ps, c, numpy.zeros(nd))[0]
     if numpy.abs(z).max() > 1e-12 * scale:
         bad("zero-mean:ensemble:hi", "screen of the zero draw is not zero (max %.3g): the ensemble mean is not zero" % numpy.abs(z).max())
